@@ -187,6 +187,18 @@ def run(ctx):
         elif r.violation:
             path = ctx.save_replay('C10-chaselev-%s.txt' % cfg.replace('.cfg', ''), r.counterexample())
             ctx.violation('model:chaselev:%s:%s' % (cfg, r.violation), WHAT + ' [ChaseLevDeque incl. tentative reads]: ' + r.violation, path)
+    # 4. auxiliary monitor (labelled as such, not the deciding method): the API programs of harness/drv/drv_lifetime.cpp
+    #    (pool shutdown, task sets, futures, pipelines, loops, graphs built concurrently on several threads, ...) built with
+    #    ThreadSanitizer.  It observes races on state the overlays do not model (lock-protected process-wide caches, code
+    #    without hooks); the library's own TSan annotations stay active, so what dispenso declares benign is not reported.
+    tsan_exe = ctx.build('drv_lifetime', ['harness/drv/drv_lifetime.cpp', 'harness/ctl/ctl.cpp'], dispenso=vlib.DISPENSO_SRCS,
+                         sanitize='thread')
+    for k in range(3 if thorough else 1):
+        tr = os.path.join(ctx.work, 'tsan_%d.ndjson' % k)
+        ctx.driver(tsan_exe, ['--out', tr, '--seed', ctx.seed + k, '--rounds', 4 if thorough else 1], WHAT,
+                   label='API programs under ThreadSanitizer (auxiliary monitor)', timeout=1500,
+                   env={'TSAN_OPTIONS': 'halt_on_error=1 exitcode=66 second_deadlock_stack=1'})
+    ctx.cov['monitor'] = 'tsan (auxiliary; a report fails the driver run)'
     ctx.sample({'extracted_orders_mpmc': extracted.get('mpmc', '')[:3000]})
     ctx.sample({'extracted_orders_event': extracted.get('event', '')[:2000]})
     ctx.cov['components'] = [c[0] for c in COMPONENTS + FENCE_COMPONENTS]
